@@ -210,6 +210,8 @@ def classify(run, meta):
 
 def load_known():
     p = os.path.join(HERE, 'known_findings.json')
+    if os.environ.get('VERIF_IGNORE_KNOWN'):  # self-test only: show what the checks say without the findings file
+        return dict(findings=[], fixed=[])
     if not os.path.exists(p):
         return dict(findings=[], fixed=[])
     return json.load(open(p))
